@@ -94,7 +94,7 @@ MCNextFast == MCSlot \/ MCNew \/ (NextFast /\ UNCHANGED gen)
 LeafRec(L) == [items |-> L.items, b |-> L.b, d |-> L.d, size |-> L.size, fn |-> LeafFn(L), fd |-> LeafFd(L),
                pos |-> WhalePos(L), uniform |-> UniformLeaf(L), unitclamp |-> ~NoUnitClamp(L), single |-> LeafSingle(L)]
 ExportRec ==
-  [input |-> input, rmode |-> RoundMode, smode |-> SelectMode,
+  [input |-> input, rmode |-> RoundMode, smode |-> IF IsDet THEN "det" ELSE SelectMode,
    must |-> UNION {x.items : x \in Keeps(plan)},
    nsakeep |-> UNION {x.items : x \in {y \in Keeps(plan) : y.why = "nsa"}},
    leaves |-> {LeafRec(L) : L \in Leaves(plan)},
@@ -112,6 +112,7 @@ Sz0123 == {-1, 0, 1, 2, 3}
 Sz1234 == {-1, 1, 2, 3, 4}
 Sz23 == {-1, 2, 3}
 Sz2 == {-1, 2}
+Sz3 == {-1, 3}
 Sz234 == {-1, 2, 3, 4}
 O(agent, single, nonsa, budgets, ns, grp, keys, quota) ==
   [agent |-> agent, single |-> single, nonsa |-> nonsa, budgets |-> budgets, ns |-> ns, grp |-> grp,
@@ -128,6 +129,7 @@ FlatSlots == <<SD(1, <<>>), SD(1, <<>>), SD(1, <<>>), SD(2, <<>>), SD(2, <<>>), 
 FlatSlots5 == <<SD(1, <<>>), SD(1, <<>>), SD(1, <<>>), SD(2, <<>>), SD(2, <<>>)>>
 FlatSlotsBig == <<SD(1, <<>>), SD(1, <<>>), SD(1, <<>>), SD(1, <<>>), SD(2, <<>>), SD(2, <<>>), SD(2, <<>>), SD(3, <<>>)>>
 Flat3Metrics == <<MD(1, 0, 0, 0), MD(2, 0, 0, 0), MD(3, 0, 0, 0)>>
+WideSlots == <<SD(1, <<>>), SD(1, <<>>), SD(1, <<>>), SD(1, <<>>), SD(1, <<>>), SD(1, <<>>), SD(1, <<>>), SD(1, <<>>), SD(2, <<>>)>>
 OptsPlain == {O(F, F, F, F, F, F, F, F)}
 
 \* tree: namespaces x groups x metrics
